@@ -788,10 +788,18 @@ class Server:
             :py:func:`asyncio.start_server`
         """
         await self.start(host=host, port=port, **kwargs)
+        # asyncio.Server.serve_forever, when cancelled, waits until every
+        # connection has ended (since python 3.12.1) - which is what close()
+        # brings about: it is kept in a task of its own, so that a
+        # cancellation of run() gets as far as close()
+        serving = asyncio.create_task(self.serve_forever())
         try:
-            await self.serve_forever()
+            await asyncio.wait([serving])
         finally:
             await self.close()
+            serving.cancel()
+            await asyncio.wait([serving])
+        return serving.result()
 
     @property
     def address(self):
